@@ -3,7 +3,7 @@ interface (DESIGN B.5)."""
 
 fields("xandikos.webdav.WebDAVApp", {
     "backend": "obj:xandikos.web.XandikosBackend", "strict": "bool",
-    "properties": "opaque:Registry", "reporters": "opaque:Registry", "methods": "opaque:Registry",
+    "properties": "opaque:Registry", "reporters": "opaque:ReporterRegistry", "methods": "opaque:Registry",
 })
 opaque("Registry")
 fields("xandikos.webdav.Response", {"status": "int", "reason": "str", "ghost_inner": "opt[str]", "headers": "list[tuple[str,str]]", "body": "opaque:Chunks"})
@@ -134,7 +134,12 @@ class parse_type_c:
           defaults={"expected_tag": None, "strict": True},
           returns="opaque:Element", may_raise=["BadRequestError", "UnsupportedMediaType"], effects=[["read_body"]])
 class readXmlBody_c:
-    pass
+    def names_result(request, result):
+        # the parsed body is a function of the request (named, not defined)
+        return result == xml_body(request)
+
+
+ghost("xml_body", ["opaque:Request"], "opaque:Element")
 
 
 @contract("xandikos.webdav.propstat_as_xml", params={"propstat": "list[tuple[str,opt[str],opaque:XmlOut]]"}, returns="list[opaque:Element]")
